@@ -252,6 +252,32 @@ def run(ctx):
     if kw is not None and kw.ir is not None:
         ok = False
         forms = []
+        # constants of the crate (character-class strings)
+        cvals = {}
+        for fl_, fv_ in sx.crate_files(ctx.syn, g.crate).items():
+            for mp_, it_ in sx.items_rec(fv_['items']):
+                if it_['k'] == 'const' and sx.lit_str(it_.get('e')) is not None:
+                    cvals[it_['name']] = sx.lit_str(it_['e'])
+        # the identifier-continuation alphabet: what the lexer under SimpleIdentifier accepts after the first character
+        id_tail = set()
+        for f_ in g.parsers():
+            if f_.tail and f_.tail[0] == 'ok' and isinstance(f_.tail[2], dict) and f_.tail[2].get('k') == 'struct' and f_.tail[2].get('p') == 'SimpleIdentifier':
+                for st_ in f_.stmts:
+                    if st_[0] == 'bind':
+                        for n_ in grammar.iter_ir(st_[3]):
+                            if n_.get('op') == 'ref' and n_['name'] in g.fns and g.fns[n_['name']].lexeme:
+                                for m_ in sx.walk(g.fns[n_['name']].item['body']):
+                                    if sx.is_call(m_, 'is_a') and m_['args'] and sx.is_path(m_['args'][0]) and m_['args'][0]['p'] in cvals:
+                                        id_tail |= set(cvals[m_['args'][0]['p']])
+        missing_chars = set()
+
+        def class_of(args):
+            t_ = sx.render(args)
+            if t_ in cvals:
+                return set(cvals[t_])
+            if isinstance(args, list) and len(args) == 1 and args[0].get('k') == 'lit' and args[0].get('t') == 'str':
+                return set(args[0]['v'])
+            return None
         for node in grammar.iter_ir(kw.ir):
             if node['op'] == 'alt':
                 arms = node['arms']
@@ -261,16 +287,27 @@ def run(ctx):
                         good.append('all_consuming')
                     elif a['op'] == 'terminated' and a['q']['op'] in ('peek', 'not'):
                         inner = a['q']['p']
-                        if a['q']['op'] == 'peek' and inner['op'] == 'prim' and inner['name'] == 'none_of' \
-                                and sx.render(inner['args']) in ('AZ09_', 'AZ09_DOLLAR'):
-                            good.append('peek(none_of(%s))' % sx.render(inner['args']))
-                        elif a['q']['op'] == 'not' and inner['op'] == 'prim' and inner['name'] in ('one_of', 'is_a') \
-                                and sx.render(inner['args']) in ('AZ09_', 'AZ09_DOLLAR'):
-                            good.append('not(%s(%s))' % (inner['name'], sx.render(inner['args'])))
+                        if a['q']['op'] == 'peek' and inner['op'] == 'not':
+                            inner = inner['p']
+                            neg = True
+                        else:
+                            neg = a['q']['op'] == 'not'
+                        cls = class_of(inner.get('args')) if inner.get('op') == 'prim' else None
+                        if cls is not None and ((not neg and a['q']['op'] == 'peek' and inner['name'] == 'none_of') or (neg and inner['name'] in ('one_of', 'is_a'))):
+                            good.append('%s(%s)' % (inner['name'], sx.render(inner['args'])))
+                            if id_tail:
+                                missing_chars |= (id_tail - cls)
+                        else:
+                            good.append(None)
                     else:
                         good.append(None)
                 forms = good
                 ok = bool(good) and all(x is not None for x in good)
+        if ok and missing_chars:
+            r7.fail('%s:keyword:boundary-alphabet' % g.crate, '%s/%s:%d' % (g.crate, kw.file, kw.line),
+                    'keyword(): the word-boundary test does not cover %s, which continue%s a simple identifier: a legal identifier that starts with a reserved word '
+                    'followed by such a character (wire1, posedge$x) is cut after the keyword wherever the grammar tries that keyword first' %
+                    (', '.join(repr(c_) for c_ in sorted(missing_chars)[:6]) + (' ...' if len(missing_chars) > 6 else ''), 's' if len(missing_chars) == 1 else ''))
         r7.inst('c:keyword-helper', {'fn': 'keyword', 'boundary_forms': forms})
         if not ok:
             r7.fail('%s:keyword:no-boundary' % g.crate, '%s/%s:%d' % (g.crate, kw.file, kw.line),
